@@ -120,6 +120,22 @@ def _walk_arrays(obj, depth=2, prefix=""):
                 yield from _walk_arrays(dict(obj.keywords), depth - 1, prefix + "/pkw")
 
 
+def embedded_arrays(darr):
+    """The ndarrays a Dask array carries in its graph.  With this Dask, da.from_array(ndarray)
+    copies each chunk into the graph, so these - not the ndarray it was built from - are the
+    caller-owned memory of a Dask-backed raster."""
+    out = []
+    try:
+        for k, v in dict(darr.__dask_graph__()).items():
+            if isinstance(v, _DataNode):
+                v = v.value
+            if isinstance(v, np.ndarray):
+                out.append((key_str(k), v))
+    except Exception:
+        pass
+    return out
+
+
 def _digest(a):
     if a.dtype == object:
         return ("obj", a.shape)
